@@ -48,6 +48,10 @@ CHECKS["C06"] = ("fvh-blackbox", "boundary-value enumeration over the socket (bi
          "every dispatched command name (read from the source at check time) x argument count x fuzzed position x a 47-value boundary pool x 13 key states, plus sub-command-aware forms, script-issued boundary commands and hostile Lua, sent in batches on throw-away connections against real server processes; after every batch / stream: process alive, PONG on a fresh connection within 5 s, sentinel data of all six types intact; failures are bisected to one request and confirmed on two fresh servers. The thorough tier runs the complete enumeration (1.3 M requests), the quick tier a seed-offset stride of it.",
          "counts with magnitude in (2^20, 2^40) are not generated; process-stopping commands (SHUTDOWN, SLEEP, DEBUG, CLIENT PAUSE, ...) excluded; resource exhaustion needing GBs of legitimate data is out of reach; finding K06 tolerated for exactly one script", "3/C06")
 
+CHECKS["C17"] = ("fvh-blackbox", "enumeration of command forms x connection contexts + generated AUTH histories, control-connection side-effect oracle",
+         "server with a generated password and a pre-loaded dataset; every dispatched command name (from the source) in 8 spellings/arities plus ~70 attack forms, each on a fresh unauthenticated connection in four contexts: exactly one error frame and no other byte, process alive, dataset dump / subscriber counts / replica table unchanged as seen by an authenticated control connection, nothing pushed to the intruder while the control connection writes; generated wrong-password histories must be refused and the exact password authenticates that connection only.",
+         "quick tier covers every form in two of the four contexts (all four for the attack forms); thorough is exhaustive over forms x contexts", "3/C17")
+
 checks = []
 for i in ids:
     if i in CHECKS:
